@@ -33,7 +33,7 @@ MUTS = [
     ("elligator.s_prime-sign", RIS, "let s_prime_is_pos = !s_prime.is_negative();", "let s_prime_is_pos = s_prime.is_negative();"),
     ("elligator.c-select-inverted", RIS, "c.conditional_assign(&r, !Ns_D_is_sq);", "c.conditional_assign(&r, Ns_D_is_sq);"),
     ("elligator.swap-Y-T", RIS, "Y: &FieldElement::ONE - &s_sq,\n                T: &FieldElement::ONE + &s_sq,", "Y: &FieldElement::ONE + &s_sq,\n                T: &FieldElement::ONE - &s_sq,"),
-    ("as_extended.X-times-Z", CM, "X: &self.X * &self.T,", "X: &self.X * &self.Z,"),
+    ("as_extended.X-times-Z", CM, "X: &self.X * &self.T,\n            Y: &self.Y * &self.Z,\n            Z: &self.Z * &self.T,\n            T: &self.X * &self.Y,", "X: &self.X * &self.Z,\n            Y: &self.Y * &self.Z,\n            Z: &self.Z * &self.T,\n            T: &self.X * &self.Y,"),
     # one-way map / wrappers
     ("from_uniform_bytes.second-half-is-first-half", RIS, "r_2_bytes.copy_from_slice(&bytes[32..64]);", "r_2_bytes.copy_from_slice(&bytes[0..32]);"),
     ("neg.identity-instead-of-neg", RIS, "RistrettoPoint(-&self.0)", "RistrettoPoint(self.0)"),
